@@ -321,6 +321,8 @@ class C11(runner.Check):
         types = values.TYPES_QUICK if tier == "quick" else values.TYPES_THOROUGH
         for ti in range(len(types)):
             out.append(("b", ti))
+        if tier != "quick":
+            out.append(("probe", 0))
         return [(tier,) + s for s in out]
 
     def run_shard(self, shard):
@@ -328,9 +330,29 @@ class C11(runner.Check):
         st = Stats()
         if part == "a":
             self._part_a(tier, shard[2], st)
+        elif part == "probe":
+            self._probe(st)
         else:
             self._part_b(tier, shard[2], st)
         return st.pack()
+
+    def _probe(self, st):
+        """operations known to kill the process are executed in a child process, once per run"""
+        import subprocess
+        env = dict(os.environ)
+        p = subprocess.run([sys.executable, os.path.abspath(__file__), "--probe-num-tuples"], env=env, stdout=subprocess.PIPE,
+                           stderr=subprocess.DEVNULL, text=True, timeout=300)
+        st.states += 1
+        st.transitions += 1
+        st.evaluations += 1
+        if p.returncode < 0:
+            st.violation("crash", "num(axis=-1) of an (empty) list of lists of 1-tuples of lists died with signal %d in a child process" % (
+                -p.returncode), {"part": "probe", "probe": "num-neg-axis-tuples"}, op="num", probe="num-neg-axis-tuples")
+        elif p.returncode != 0:
+            st.outcome("probe:num-neg-axis-tuples:raised")
+        else:
+            st.outcome("probe:num-neg-axis-tuples:ok")
+            st.nontrivial += 1
 
     def _part_a(self, tier, group, st):
         no = 0
@@ -397,6 +419,10 @@ class C11(runner.Check):
                         elif depth2 and nstates <= 12 and not isinstance(r, ext.Record):
                             rd = ext.describe(r)
                             for op2, args2, fn2 in opalpha.ops_for(rd, None, "quick", small=True):
+                                if op2 == "num" and args2 and args2[0] < 0 and has_record(rd):
+                                    # num(axis < 0) of nested lists of tuples kills the process (KF-C11-13): observed once
+                                    # per run in a child process by the 'probe' shard instead of here
+                                    continue
                                 no += 1
                                 pool.mark(no)
                                 st.transitions += 1
@@ -446,5 +472,21 @@ class C11(runner.Check):
         return bad, "\n".join(text)
 
 
+def _probe_num_tuples():
+    inner = {"class": "ListOffsetArray64", "offsets": np.array([0]), "content": {"class": "NumpyArray", "array": np.array([], dtype=np.int64)}}
+    d = {"class": "RecordArray", "keys": None, "contents": [inner]}
+    for _ in range(2):
+        d = {"class": "ListOffsetArray64", "offsets": np.array([0]), "content": d}
+    lay = layouts.build(d)
+    try:
+        r = lay.num(-1)
+    except (ValueError, RuntimeError, IndexError):
+        return 3
+    print(r.validityerror() if hasattr(r, "validityerror") else r)
+    return 0
+
+
 if __name__ == "__main__":
+    if len(sys.argv) > 1 and sys.argv[1] == "--probe-num-tuples":
+        sys.exit(_probe_num_tuples())
     sys.exit(runner.main(C11()))
